@@ -4,8 +4,9 @@
 #include "../engine/mc.h"
 
 #define PC14 P(0)
+#define PC20 P(1)      /* the converse half of C20: objects moved only with the library's own functions never abort */
 static const char *w_name = "array";
-static unsigned w_prop_bit(const char *id) { return !strcmp(id, "C14") ? PC14 : 0; }
+static unsigned w_prop_bit(const char *id) { return !strcmp(id, "C14") ? PC14 : !strcmp(id, "C20") ? PC20 : 0; }
 
 #define NOBJ 3
 #define NEXT 2
@@ -186,7 +187,7 @@ static void w_apply(mc_op_t o)
             break;
         }
         if (ab == 1) {
-            MC_CHECK(PC14, open, "slice(beg=%s=%zu, end=%s=%zu) of an object with offset %zu, length %zu in a buffer of %zu elements is in range but aborted", vname[OD(o)], beg, vname[OE(o)], end, off, len, nm);
+            MC_CHECK(PC14 | PC20, open, "slice(beg=%s=%zu, end=%s=%zu) of an object with offset %zu, length %zu in a buffer of %zu elements is in range but aborted", vname[OD(o)], beg, vname[OE(o)], end, off, len, nm);
             if (open) mc_terminal = 1;
             ab = 0;
             break;
@@ -229,7 +230,7 @@ static void w_apply(mc_op_t o)
         break;
     }
     }
-    if (ab) MC_CHECK(PC14, 0, "unexpected %s inside the library: %s", ab == 3 ? "non-termination (a library call still running after 3 s)" : ab == 2 ? "assertion failure" : "abort()", ab == 2 ? shim_assert_msg : "");
+    if (ab) MC_CHECK(PC14 | PC20, 0, "unexpected %s inside the library: %s", ab == 3 ? "non-termination (a library call still running after 3 s)" : ab == 2 ? "assertion failure" : "abort()", ab == 2 ? shim_assert_msg : "");
     else if (mc_checking && !mc_terminal) check_accounting("after the operation");
 }
 
@@ -241,7 +242,7 @@ static void w_audit(void)
         static void * volatile e;
         MC_CHECK(PC14, cstl_array_size(&A[a]) == O[a].len, "object %d: size() = %zu, reference view has %zu elements", a, cstl_array_size(&A[a]), O[a].len);
         SHIM_CALL(ab, e = cstl_array_data(&A[a]));
-        if (ab) { MC_CHECK(PC14, 0, "object %d: data() aborted on a properly handled object", a); return; }
+        if (ab) { MC_CHECK(PC14 | PC20, 0, "object %d: data() aborted on a properly handled object", a); return; }
         data = e;
         if (b < 0) MC_CHECK(PC14, data == NULL, "object %d refers to no buffer but data() is %p", a, (void *)data);
         else {
@@ -261,7 +262,7 @@ static void w_audit(void)
             SHIM_CALL(ab, e = cstl_array_at(&A[a], idx[k]));
             if (idx[k] < O[a].len) {
                 const unsigned char *want = data + (O[a].off + idx[k]) * B[b].sz;
-                MC_CHECK(PC14, ab == 0, "object %d: at(%zu) aborted although the view has %zu elements", a, idx[k], O[a].len);
+                MC_CHECK(PC14 | PC20, ab == 0, "object %d: at(%zu) aborted although the view has %zu elements", a, idx[k], O[a].len);
                 if (!ab) MC_CHECK(PC14, e == (void *)want && want + B[b].sz <= data + B[b].nm * B[b].sz, "object %d (offset %zu, length %zu, buffer of %zu elements): at(%zu) is %td bytes from the buffer start, expected %td (inside %zu bytes)",
                                   a, O[a].off, O[a].len, B[b].nm, idx[k], (const unsigned char *)e - data, want - data, B[b].nm * B[b].sz);
             } else MC_CHECK(PC14, ab == 1, "object %d: at(%zu) with %zu elements in view must abort but %s", a, idx[k], O[a].len, ab ? "hit an assertion" : "returned");
